@@ -101,6 +101,7 @@ type Template struct {
 	Header     bool        `json:"header,omitempty"`     // declare params with {@param} instead of soydoc
 	Autoescape string      `json:"autoescape,omitempty"` // "" true false contextual deprecated-contextual
 	Private    bool        `json:"private,omitempty"`
+	BothDecls  bool        `json:"bothdecls,omitempty"` // (invalid) params declared in soydoc and again in the header
 	Body       []Cmd       `json:"body"`
 }
 
